@@ -113,7 +113,7 @@ class Ctx:
         return unlisted
 
     # ---- Hypothesis driver ---------------------------------------------------------
-    def hyp(self, strategy, oracle, max_examples, case_of=None, shrink_seconds=None, label=""):
+    def hyp(self, strategy, oracle, max_examples, case_of=None, shrink_seconds=None, label="", collect=False):
         """Search `strategy` with Hypothesis.  oracle(value) -> list[Disc] (and is expected to
         call ctx.case itself).  Known discrepancies are counted and the search continues;
         the first unlisted one becomes the shrink target (same signature only)."""
@@ -144,6 +144,14 @@ class Ctx:
                 d for d in discs if self.known.lookup(self.pid, d.sig) is None
             ]
             if not unl:
+                return
+            if collect:
+                # collect-classify-continue: remember the first case of every unlisted signature and
+                # keep searching; the caller minimises afterwards (ddmin)
+                for d in unl:
+                    if d.sig not in self.violations:
+                        self.violations[d.sig] = {"what": d.what, "detail": d.detail,
+                                                  "case": case_of(v) if case_of else v}
                 return
             if state["target"] is None:
                 state["target"] = unl[0].sig
